@@ -3,6 +3,7 @@
 //   MODE_FAIL     one invocation with failing commands, -k, exit codes                      C05
 //   MODE_SCHED    one invocation: -j / pools / jobserver tokens / spawn failures            C06
 //   MODE_CRASH    a build killed at a symbolic persistence event or interrupted, recovery   C07
+#include <unistd.h>
 #include "scenarios.h"
 #ifdef VIA_MAIN
 #include "mainkit.h"
@@ -55,6 +56,10 @@ static void user_operations(const Scenario* sc) {
   for (size_t i = 0; i < g_tree->files.size(); i++) { VFile& f = g_tree->files[i]; bool is_src = false; for (size_t k = 0; k < src.size(); k++) is_src = is_src || src[k] == f.name; if (!is_src && f.exists && f.name != ".ninja_lock" && f.name != "build.ninja") outs.push_back(f.name); }
 #ifdef NO_DELETE
   outs.clear();
+#endif
+#ifdef DELETE_LOGS
+  // the build directory is restored without one of ninja's logs (a cache that keeps the outputs only)
+  { int which = verif_choice("delete_log", 3); if (which == 1) { unlink(".ninja_deps"); verif_note("delete .ninja_deps"); } else if (which == 2) { unlink(".ninja_log"); verif_note("delete .ninja_log"); } }
 #endif
   int del = verif_choice("delete_output", (int)outs.size() + 1);
   if (del > 0) { g_tree->remove(outs[del - 1]); verif_note(("delete " + outs[del - 1]).c_str()); }
@@ -229,7 +234,8 @@ extern "C" int harness_main() {
   if (r.max_running > 1) verif_reach("parallel");
   // response files: gone once the command has succeeded, kept for inspection when it failed
   for (size_t i = 0; i < g_ref.size(); i++) { if (g_ref[i].rspfile.empty()) continue;
-    if (has_id(r.finished_ok, g_ref[i].ordinal)) VERIF_ASSERT(!g_tree->exists(g_ref[i].rspfile), "C16: the response file is removed after the command succeeds");
+    bool shared_with_failed = false; for (size_t q = 0; q < g_ref.size(); q++) if (q != i && g_ref[q].rspfile == g_ref[i].rspfile && has_id(r.failed, g_ref[q].ordinal)) shared_with_failed = true;     // (two statements may name the same response file)
+    if (has_id(r.finished_ok, g_ref[i].ordinal) && !shared_with_failed) VERIF_ASSERT(!g_tree->exists(g_ref[i].rspfile), "C16: the response file is removed after the command succeeds");
     if (has_id(r.failed, g_ref[i].ordinal)) { VFile* f = g_tree->find(g_ref[i].rspfile); VERIF_ASSERT(f && f->exists && f->is_text && f->text == g_ref[i].rspfile_content, "C16: the response file of a failed command is kept, with its content"); verif_reach("rspfile-kept"); } }
   return 0;
 }
@@ -278,6 +284,8 @@ extern "C" int harness_main() {
   VERIF_ASSERT(r2.parsed && r2.loaded && r2.added, "C07: the invocation after a killed or interrupted one starts normally");
   VERIF_ASSERT(r2.rc == 0, "C07: the invocation after a killed or interrupted one succeeds");
   if (r2.rc == 0) assert_clean_equal(o2.targets, "C07: once the recovery build succeeds the tree is identical to a clean build");
+  if (r2.rc == 0) { bool stray = false; for (size_t i = 0; i < g_ref.size(); i++) if (!g_ref[i].rspfile.empty() && g_tree->exists(g_ref[i].rspfile)) stray = true;      // (a clean build leaves no response file behind)
+    VERIF_ASSERT(!stray, "C07: once the recovery build succeeds the tree is identical to a clean build (no response file of a finished command is left behind)"); }
   InvocationResult r3 = invoke(o2);
   VERIF_ASSERT(r3.rc == 0 && r3.started.empty(), "C07: ... and the build after that has nothing to do");
   verif_reach("recovered");
@@ -318,9 +326,14 @@ extern "C" int harness_main() {
   if (fmt_kind == 0) setenv("NINJA_STATUS", "[%s,%f,%t,%r,%u,%p,%%] ", 1);
   else o.status_option = "[$started,$finished,$total,$running,$remaining,$progress,%] $description";
 #endif
+#ifdef STAT_MAY_FAIL
+  g_stat_may_fail = true;      // the bookkeeping after a command (re-stat of restat / deps outputs) may fail once with an I/O error: the build is abandoned, what finished commands printed is still shown
+#endif
   verif_stdout_capture();
   InvocationResult r = invoke(o);
   VERIF_ASSERT(r.parsed && r.added, "the scenario manifest parses and the targets are known");
+  const bool abandoned = g_stat_failed && r.rc != 0;      // commands still running when ninja gave up are killed, not reported
+  if (abandoned) verif_reach("bookkeeping-failed");
   static char buf[65536]; long n = verif_stdout_copy(buf, sizeof buf); std::string out(buf, (size_t)n);
 #ifdef SMART_TERMINAL
   verif_set_tty(0, 0);
@@ -390,9 +403,10 @@ extern "C" int harness_main() {
     unsetenv("NINJA_STATUS");
 #endif
     VERIF_ASSERT(counters, "C20: progress counters never exceed the total");
-    VERIF_ASSERT(r.status_started == r.status_finished, "C20: every started command is also reported finished");
+    if (!abandoned) VERIF_ASSERT(r.status_started == r.status_finished, "C20: every started command is also reported finished");
     (void)last_f; (void)last_t;
-    VERIF_ASSERT(r.sp_started == r.sp_finished && r.sp_finished <= r.sp_total, "C20: the status counters stay consistent (finished == started <= total)");
+    if (!abandoned) VERIF_ASSERT(r.sp_started == r.sp_finished && r.sp_finished <= r.sp_total, "C20: the status counters stay consistent (finished == started <= total)");
+    else VERIF_ASSERT(r.sp_finished <= r.sp_started && r.sp_started <= r.sp_total, "C20: the status counters stay consistent (finished <= started <= total) when a build is abandoned");
     // (the last printed line may show fewer than the total when a restat command has just pruned the rest of the plan; the counters themselves must agree)
     if (r.rc == 0 && !r.up_to_date) VERIF_ASSERT(r.sp_finished == r.sp_total, "C20: after a successful build the number finished equals the total");
   }
@@ -501,7 +515,7 @@ extern "C" int harness_main() {
     bool declared_cycle = needs_cycle(o.targets, false, &on_cycle);
     { // statements the scenario text itself puts on a cycle (independent of what ninja's parser made of them)
       std::vector<std::string> cl; for (size_t i = 0; i < o.targets.size(); i++) closure(o.targets[i], &cl);
-#if SCENARIO != 23
+#if SCENARIO != 23 && SCENARIO != 51
       for (size_t i = 0; i < cl.size(); i++) { const CmdSpec* cs = spec_for(cl[i]); if (cs && (cs->flags & EXPECT_CYCLE)) declared_cycle = true; }
 #endif
     }
@@ -513,7 +527,7 @@ extern "C" int harness_main() {
     VERIF_ASSERT(r.parsed, "the scenario manifest parses");
     observe(r);
     bool says_cycle = r.err.find("dependency cycle") != std::string::npos;
-#if SCENARIO == 23
+#if SCENARIO == 23 || SCENARIO == 51
     // the dyndep file, built during this invocation, makes 'out' produce o2, which 'rout' (an input of 'out') reads: a cycle that only exists once dd is loaded
     { bool out_ran = false; for (size_t i = 0; i < g_ref.size(); i++) if (g_ref[i].outs[0] == "out" && has_id(r.started, g_ref[i].ordinal)) out_ran = true;
       bool rout_done_first = event_before(r.events, "ok rout", "ok dd");
